@@ -112,8 +112,9 @@
          when there is no centre assembly (hole at 001-001): `conv`, not "the list of added assemblies is non-empty".
      I5  The centre's parameters are multiplied by 3 whatever the history of parameter-assignment flags.
      I6  scaleParamsRelatedToSymmetry belongs to the edge round trip as the converter is used (add ; [solve] ; scale ; remove).
-         It is modelled for a third core only (the code would happily pair the 0- and 120-degree lines of a full core; that
-         call has no meaning and is outside the alphabet).  Where it pairs assemblies of DIFFERENT origin (edge assemblies
+         It is modelled for a non-empty third core only (the code would happily pair the 0- and 120-degree lines of a full
+         core, and it raises AttributeError on a core that has lost all its assemblies -- getFirstBlock() is None; neither
+         call has a meaning, both are outside the alphabet).  Where it pairs assemblies of DIFFERENT origin (edge assemblies
          that were in the model from the start) the result is no multiple of the built values: the scale becomes Mixed,
          is projected as <<0, 0>> and the parameter totals are not compared (parOk) until a Solve overwrites it.
          Solve stands for the flux solve: it assigns; what it writes is an input of the action.  After a Solve or an effective
@@ -346,7 +347,7 @@ RemoveEdgesFullCore(kept) ==
 \* fluxes elementwise, and the scalar flux / adjoint flux / gamma flux are recomputed from the sum: fx := FALSE).
 ScaleParams ==
     /\ Go
-    /\ sym = "third" /\ gflag /\ NPairs(Cur) > 0
+    /\ sym = "third" /\ Occ(Cur) # {} /\ gflag /\ NPairs(Cur) > 0
     /\ Install(ScaleAll(Cur))
     /\ touched' = TRUE
     /\ flow' = (IF flow = "solved" THEN "scaled" ELSE "none")
@@ -358,7 +359,7 @@ ScaleParams ==
 \* no pair: nothing changes
 ScaleParamsNothing ==
     /\ Go
-    /\ sym = "third" /\ ~(gflag /\ NPairs(Cur) > 0)
+    /\ sym = "third" /\ Occ(Cur) # {} /\ ~(gflag /\ NPairs(Cur) > 0)
     /\ trip' = (IF trip = "A" THEN "AS" ELSE "")
     /\ UNCHANGED <<sym, at, byLoc, byName, byBlk, nextNum, added, conv, ecAdded, gflag, touched, flow, preEdge, pat, base, sf0, preConv>>
     /\ act' = Label("scaleParams", FALSE, "ScaleParamsNothing")
